@@ -45,7 +45,10 @@ class CombinedDataHandler:
         # this is necessary if we are worried that there is no zero state for units (ie. some precinct states)
         elif handle_unreporting == "zero":
             indices_with_null_val = data[result_cols].isna().any(axis=1)
-            data.update(data[result_cols].fillna(value=0))
+            # a unit without results has zero votes in every results column (weights, margin, turnout ...),
+            # not only in the columns of the requested estimands
+            all_result_cols = [col for col in data.columns if col.startswith("results_")]
+            data.update(data[all_result_cols].fillna(value=0))
             data.loc[indices_with_null_val, "percent_expected_vote"] = 0
 
         self.n_minimum_for_outlier_detection_model = 20
